@@ -116,8 +116,27 @@ pub fn replay(id: &str, path: &str) -> i32 {
     let doc: Value = match std::fs::read_to_string(path).ok().and_then(|s| serde_json::from_str(&s).ok()) {
         Some(d) => d,
         None => {
-            eprintln!("cannot read replay file {}", path);
-            return 2;
+            // not JSON: a libFuzzer artifact; the target is named in the file name
+            let name = std::path::Path::new(path).file_name().map(|n| n.to_string_lossy().to_string()).unwrap_or_default();
+            let target = ["open_verify", "mutate_verify", "reader_versions", "roundtrip"].into_iter().find(|t| name.contains(t));
+            return match (target, std::fs::read(path)) {
+                (Some(t), Ok(data)) => match crate::fuzzdec::run_target(t, &data) {
+                    Some(Err(fail)) => {
+                        println!("VIOLATION property={} replay={}", id, path);
+                        println!("  signature={}", fail.sig);
+                        println!("  {}", fail.msg);
+                        1
+                    }
+                    _ => {
+                        println!("replay {}: fuzz target {} finds no violation on this input", path, t);
+                        0
+                    }
+                },
+                _ => {
+                    eprintln!("cannot read replay file {}", path);
+                    2
+                }
+            };
         }
     };
     let sub = doc.get("subcheck").and_then(|s| s.as_str()).unwrap_or("");
